@@ -213,7 +213,7 @@ def explore(unit: Tuple[Tuple[int, ...], int, str]) -> Part:
     part.count("bfs_sequences", res.transitions)
     part.sets["states"] = {(variant, x) for x in seen}
     part.add("depth", len(start) + res.max_depth)
-    part.count("bfs_frontier_left_at_bound", res.frontier_left)
+    part.count("bfs_frontier_left_at_bound_" + variant, res.frontier_left)
     for key, hist, detail in res.violations:
         part.violation(key, {"mode": "sequence", "variant": variant, "frames": [[ALPHA[e][0], fh(ALPHA[e][1])] for e in hist]}, detail)
     return part
@@ -358,7 +358,15 @@ def run(ctx: Ctx) -> None:
         ctx.note("quick: double faults on the 18-frame stream are left to the thorough tier")
     pmap(ctx, fault_unit, units)
     # BFS (single process: the reachable state space is small and is explored to its fixpoint if the depth allows)
-    pmap(ctx, explore, [((), depth if v == "plain" or not ctx.quick else min(depth, 5), v) for v in VARIANTS])
+    # the plain state machine is explored to its fixpoint; the verbose decoders (same reassembly code + callbacks; the
+    # active one also counts received frames, which keeps producing new states) to a depth bound, sharded by first frame
+    bunits: List[Any] = [((), depth, "plain")]
+    vdepth = 4 if ctx.quick else 6
+    for v in VARIANTS[1:]:
+        bunits.append(((), 1, v))
+        bunits += [((e,), vdepth - 1, v) for e in range(len(ALPHA))]
+    ctx.bounds["bfs_depth_verbose_variants"] = vdepth
+    pmap(ctx, explore, bunits)
     states = ctx.sets.pop("states")
     ctx.counts["states"] = len(states)
     ctx.counts["max_depth"] = max(ctx.sets.pop("depth"))
@@ -368,7 +376,7 @@ def run(ctx: Ctx) -> None:
     ctx.sample({"bfs_sequence": [fh(ALPHA[e][1]) for e in (2, 4, 4)]})
     ctx.guard("fault executions > 500", ctx.counts.get("fault_executions", 0) > 500)
     ctx.guard("distinct outcomes > 20", len(ctx.sets.get("outcomes", ())) > 20)
-    ctx.extra["bfs_fixpoint_reached"] = ctx.counts.get("bfs_frontier_left_at_bound", 0) == 0
+    ctx.extra["bfs_fixpoint_reached_plain_decoder"] = ctx.counts.get("bfs_frontier_left_at_bound_plain", 0) == 0
     ctx.guard("bfs states > 100", ctx.counts["states"] > 100)
     for cid in (RX, RX2):
         probs = run_probe(Run(), cid, "init")
